@@ -91,6 +91,8 @@ class H(explore.Harness):
                 c = orig(att, host)
                 c.buf = bytearray()
                 c.handler = self._plain_rx
+                if p.get("slow_close"):
+                    c.slow_close = True  # the peer is not reading: unsent bytes sit in the write buffer, a close() completes late
                 return c
 
             self.net.accept = accept
@@ -426,12 +428,12 @@ class H(explore.Harness):
                 out.append(("caller-pending-at-horizon", {"caller": k}))
         # abandoned connections: a connection on which a request timed out / was cancelled / that dropped must be closed by the controller
         for kind, k, cid in self.abandon_marks:
-            if cid is not None and self.net.conns[cid].client_open:
+            if cid is not None and self.net.conns[cid].client_open and not self.net.conns[cid].client_closing:  # (close() called = abandoned, however late the transport reports it)
                 out.append(("connection-not-abandoned-after-" + kind, {"caller": k, "cid": cid}))
         for k, t in self.tasks.items():
             if t.done() and not t.cancelled() and t.exception() is not None and str(k) in self.sent_on:
                 cid = self.sent_on[str(k)]
-                if self.net.conns[cid].client_open:
+                if self.net.conns[cid].client_open and not self.net.conns[cid].client_closing:
                     out.append(("connection-not-abandoned-after-failed-request", {"caller": k, "cid": cid}))
         bad = [c for c in self.loop.unhandled if not isinstance(c.get("exception"), (IndexError, RuntimeError))]
         return out
@@ -565,6 +567,10 @@ def run(ctx):
         # the same spaces under other environments: byte-wise reads; chunked responses in reads that end inside a block
         dict(limit=1, callers=2, P=0, secure=True, env=dict(delivery="bytes")),
         dict(limit=2, callers=2, P=0, secure=False, resp="chunked", env=dict(delivery="3/4")),
+        # a peer that stopped reading (bytes of the request still in the write buffer): closing such a transport completes late, whoever
+        # closes it - what the callers see must not wait for that
+        dict(limit=1, callers=2, P=0, secure=False, slow_close=True),
+        dict(limit=2, callers=2, P=0, secure=False, slow_close=True),
         # body-less answers (what a write gets): without any Content-Length, and with Content-Length: 0; a response and an event in ONE read
         dict(limit=1, callers=2, P=0, secure=False, resp="204", combo=True),
         dict(limit=1, callers=2, P=0, secure=True, resp="204", combo=True),
